@@ -814,7 +814,7 @@ def run_meta(ctx, out, yreq, ypending):
             strs.add("".join(toks))
     strs |= {"1.0\n", " 1.0", "1.0 ", "１.0", "1.0.post1.dev2", "2!1.2.3rc4.post5.dev6", "1..0", "1.0a", "1.0rc01", "00", "1.0.dev", "v1"}
     for s in sorted(strs):
-        ok, iv = guarded(out, "pep440|_is_pep440", {"kind": "pep440", "s": s}, decl._is_pep440, s)
+        ok, iv = guarded(out, "pep440|_is_pep440", {"kind": "pep440", "s": s}, common.find_function(decl, "_is_pep440", ("pep440",)), s)
         if not ok:
             continue
         iv = bool(iv)
